@@ -8,6 +8,7 @@ open Lungo.C10
 #print axioms or_is_disj
 #print axioms doc_is_and
 #print axioms in_is_disj_eq
+#print axioms all_is_conj_eq
 #print axioms ordering_ne_lt
 #print axioms ordering_ne_gt
 #print axioms gte_is_gt_or_eq
